@@ -73,7 +73,7 @@ CHECKS.update({
 
 CHECKS.update({
     "C05": ("proof", "A+W+X", "relational abstract interpretation (linear inequalities, Fourier-Motzkin entailment) of the generated iterator's MIR + type-level compile witnesses",
-            "For each witness enum (N = 0..9, with/without disabled variants, type- and const-generic, 4 build configurations) the MIR of nth / next_back / size_hint / len / next / clone is interpreted forward in a relational domain over (idx, back_idx, n). Obligations: O1 every Assert(Overflow) is entailed for all n in usize and all cursor states satisfying the invariant (covers debug panic and release wrap-around alike); O2 the invariant 0 <= idx, back_idx <= N holds at every return; O3 the cursor specifications (item index, cursor updates, None exactly when exhausted, exact size_hint, len = size_hint().0, next = nth(0), clone copies the cursors). The same obligations are then discharged once more with the length read as a symbol N (0 <= N <= rustc's VariantIdx::MAX), i.e. for every number of variants; this step is justified by two checked facts: the MIR of every method is identical across witnesses up to the length constant, and the generator function only interpolates the length into the template and never branches on it. Send + Sync for arbitrary type parameters is a compile witness with a failing negative twin; the trait surface is read from the resolved impls and from strum::IntoEnumIterator's bounds.",
+            "For each witness enum (N = 0..9, with/without disabled variants, type- and const-generic, 4 build configurations) the MIR of nth / next_back / size_hint / len / next / clone is interpreted forward in a relational domain over (idx, back_idx, n). Obligations: O1 every Assert(Overflow) is entailed for all n in usize and all cursor states satisfying the invariant (covers debug panic and release wrap-around alike); O2 the invariant 0 <= idx, back_idx <= N holds at every return; O3 the cursor specifications (item index, cursor updates, None exactly when exhausted, exact size_hint, len = size_hint().0, next = nth(0), clone copies the cursors). The same obligations are then discharged once more with the length read as a symbol N (0 <= N <= rustc's VariantIdx::MAX), i.e. for every number of variants; this step is justified by two checked facts: the MIR of every method is identical across witnesses up to the length constant, and the generator function only interpolates the length into the template and never branches on it (if it compares the length with constants, every length interval it distinguishes must contain an analysed witness). Send + Sync for arbitrary type parameters is a compile witness with a failing negative twin; the trait surface is read from the resolved impls and from strum::IntoEnumIterator's bounds.",
             "concrete-N verdicts are per witness enum; the all-N verdict assumes the template is the only source of the methods (checked by uniformity); refinement from O2+O3 to 'behaves like a double-ended iterator over the list' (O4) is a paper argument; core's default adapters trusted"),
 })
 
@@ -120,8 +120,8 @@ def main():
             "add_only": True,
         },
         "engines": [
-            {"name": "X", "path": "py/props_strings.py, py/props_tables.py, py/tables.py, py/shapes.py, py/spec.py, py/corpus.py", "serves_properties": sorted(k for k, v in table.items() if "X" in v[1]),
-             "kind_free_text": "translation validation of macro expansions: resolved HIR/AST facts (tools/factdrv, a rustc_private driver) of generated impls vs an independent oracle, over the repository's enums and a generated witness corpus"},
+            {"name": "X", "path": "py/props_strings.py, py/props_tables.py, py/tables.py, py/shapes.py, py/symeval.py, py/spec.py, py/corpus.py", "serves_properties": sorted(k for k, v in table.items() if "X" in v[1]),
+             "kind_free_text": "translation validation of macro expansions: resolved HIR/AST facts (tools/factdrv, a rustc_private driver) of generated impls vs an independent oracle, over the repository's enums and a generated witness corpus; a generated body that is not of the emitted shape is first normalised into a decision DAG over decidable atoms (py/symeval.py, DESIGN.md 14.8-14.13) and decided on one representative per cell of the atom partition"},
             {"name": "W", "path": "py/corpus.py, py/witness.py", "serves_properties": sorted(k for k, v in table.items() if "W" in v[1]),
              "kind_free_text": "compile / compile_fail witnesses built as cargo targets, diagnostics attributed per witness"},
             {"name": "G", "path": "py/props_gen.py, tools/factdrv/src/genfacts.rs", "serves_properties": sorted(k for k, v in table.items() if "G" in v[1]),
@@ -131,7 +131,7 @@ def main():
         ],
         "checks": checks,
         "not_applicable": na,
-        "notes": "Static analysis only: no generated strum code is executed. See DESIGN.md. known_findings.json lists genuine defects (open / fixed).",
+        "notes": "Static analysis only: no generated strum code is executed (atoms of the decision-tree normaliser are evaluated on representative inputs by their definition). See DESIGN.md, section 14 for the construction report: 160 seeded changes reported, 76 behaviour-preserving controls (one known conservative alarm, refactors/R30-1). known_findings.json lists genuine defects (open / fixed).",
     }
     with open(os.path.join(VERIF, "MANIFEST.json"), "w") as f:
         json.dump(m, f, indent=1)
